@@ -211,7 +211,47 @@ func ZZC15Keys() {
 	v.Assert(s.Validate(json.New("d", ex)) == nil, "C15/example-rejected-by-its-own-schema")
 }
 
+// ZZC15KeyTypes: a key shortcut whose type is an or shortcut over string, integer and object types,
+// in every order: whenever Check accepts the schema, the example is well formed and validates.
+func ZZC15KeyTypes() {
+	names := []string{"@s", "@i", "@o", "@s2"}
+	n := v.Choose(1, 3)
+	body := ""
+	for i := 0; i < n; i++ {
+		if i > 0 {
+			body += " | "
+		}
+		body += names[v.Choose(0, len(names)-1)]
+	}
+	root := "{\n  \"id\": 7,\n  @k: 1\n}"
+	if v.Choose(0, 1) == 1 {
+		root = "{\n  @k: 1\n}"
+	}
+	v.Observe("schema", root)
+	v.Observe("keytype", body)
+	s := jschema.New("s", root)
+	v.Assert(s.AddType("@k", jschema.New("@k", body)) == nil, "C15/addtype-failed")
+	v.Assert(s.AddType("@s", jschema.New("@s", `"abc"`)) == nil, "C15/addtype-failed")
+	v.Assert(s.AddType("@s2", jschema.New("@s2", `"de" // {minLength: 2}`)) == nil, "C15/addtype-failed")
+	v.Assert(s.AddType("@i", jschema.New("@i", `12`)) == nil, "C15/addtype-failed")
+	v.Assert(s.AddType("@o", jschema.New("@o", `{"a": 1}`)) == nil, "C15/addtype-failed")
+	if s.Check() != nil {
+		v.Reach("C15/keytypes-rejected")
+		return
+	}
+	v.Reach("C15/keytypes-accepted")
+	ex, err := s.Example()
+	v.Assert(err == nil, "C15/example-error-on-accepted-schema")
+	if err != nil {
+		return
+	}
+	v.Observe("example", ex)
+	v.Assert(gen.JSONText(ex), "C15/example-is-not-well-formed-json")
+	v.Assert(s.Validate(json.New("d", ex)) == nil, "C15/example-rejected-by-its-own-schema")
+}
+
 func init() {
+	ZZHarnesses["ZZC15KeyTypes"] = ZZC15KeyTypes
 	ZZHarnesses["ZZC15Keys"] = ZZC15Keys
 	ZZHarnesses["ZZC15Plain"] = ZZC15Plain
 	ZZHarnesses["ZZC15Types"] = ZZC15Types
